@@ -1,6 +1,6 @@
 // C12 conformance driver for the cpp-tbox HTTP server.
 //   driver parse <scripts.jsonl> <out.ndjson>
-//       each line {"hex":"<stream bytes>","cuts":[n1,n2,...]}: the real http::server::RequestParser is fed the stream,
+//       each line {"hex":"<stream bytes>","cuts":[n1,n2,...],"claim":"wf"|"any"}: the real http::server::RequestParser is fed the stream,
 //       segment by segment, through the same leftover-buffer loop as server_imp.cpp (append to a util::Buffer, call
 //       parse() on everything unconsumed, hasRead(consumed), take the request when finished, stop on failure).
 //       Every parse() call is given an exactly sized heap copy so that an over-read is visible to ASan.
@@ -73,7 +73,7 @@ static const char *st_name(RequestParser::State s) {
 static void run_parse(const json &c) {
     auto &T = vh::T();
     std::string bytes = unhex(c["hex"].get<std::string>());
-    T.line("{\"e\":\"Stream\",\"mode\":\"parse\",\"cuts\":" + c["cuts"].dump() + ",\"bytes\":" + jbytes(bytes) + "}");
+    T.line("{\"e\":\"Stream\",\"mode\":\"parse\",\"claim\":\"" + c.value("claim", "any") + "\",\"cuts\":" + c["cuts"].dump() + ",\"bytes\":" + jbytes(bytes) + "}");
     RequestParser parser;
     util::Buffer buff;
     size_t off = 0;
@@ -261,7 +261,7 @@ static void step() {
         client_connect();
         if (S.stream_mode) {
             S.bytes = unhex(sc["hex"].get<std::string>());
-            T.line("{\"e\":\"Stream\",\"mode\":\"srv\",\"cuts\":" + sc["cuts"].dump() + ",\"bytes\":" + jbytes(S.bytes) + "}");
+            T.line("{\"e\":\"Stream\",\"mode\":\"srv\",\"claim\":\"" + sc.value("claim", "any") + "\",\"cuts\":" + sc["cuts"].dump() + ",\"bytes\":" + jbytes(S.bytes) + "}");
             S.cut_i = 0; S.off = 0;
         } else {
             T.line("{\"e\":\"Begin\",\"script\":" + sc.dump() + "}");
